@@ -187,31 +187,32 @@ type World struct {
 	T  *testing.T
 	t0 time.Time
 
-	mu         sync.Mutex
-	done       chan struct{}
-	Dir        string
-	StatePath  string
-	Router     *server.Router
-	Srv        *server.Server
-	HS         *http.Server
-	ln, tlsLn  *memListener
-	probeTr    *http.Transport
-	conns      []net.Conn
-	Targets    map[string]*FakeTarget
-	Hooks      []HookRec
-	Resps      []*Resp
-	Cmds       []*CmdRec
-	ReqDelay   map[string]map[string]time.Duration
-	PointDelay map[string]func(name string, n int) time.Duration
-	pointCount map[string]int
-	OnHook     func(h HookRec)
-	LogBuf     *lockedBuffer
-	WG         sync.WaitGroup
-	prevClient *http.Client
-	prevLog    *slog.Logger
-	seq        int
-	LogLevel   slog.Level
-	extra      []*Proxy
+	mu            sync.Mutex
+	done          chan struct{}
+	Dir           string
+	StatePath     string
+	Router        *server.Router
+	Srv           *server.Server
+	HS            *http.Server
+	ln, tlsLn     *memListener
+	probeTr       *http.Transport
+	conns         []net.Conn
+	Targets       map[string]*FakeTarget
+	Hooks         []HookRec
+	Resps         []*Resp
+	Cmds          []*CmdRec
+	ReqDelay      map[string]map[string]time.Duration
+	PointDelay    map[string]func(name string, n int) time.Duration
+	pointCount    map[string]int
+	OnHook        func(h HookRec)
+	LogBuf        *lockedBuffer
+	WG            sync.WaitGroup
+	prevClient    *http.Client
+	prevLog       *slog.Logger
+	seq           int
+	LogLevel      slog.Level
+	extra         []*Proxy
+	MaxClientLife time.Duration
 	// DialAttempts counts connection attempts made through http.DefaultClient, by address
 	// (health probes and anything else that uses the default client, e.g. an ACME client).
 	DialAttempts map[string]int
@@ -261,6 +262,14 @@ func NewWorld(t *testing.T, opt WorldOpt) *World {
 }
 
 func (w *World) Now() time.Duration { return time.Since(w.t0) }
+
+// ClientDeadline is the longest a client connection of this world may live.
+func (w *World) ClientDeadline() time.Duration {
+	if w.MaxClientLife > 0 {
+		return w.MaxClientLife
+	}
+	return 3 * time.Hour
+}
 
 // SleepUntil sleeps until the absolute virtual offset (no-op when already past).
 func (w *World) SleepUntil(at time.Duration) {
@@ -740,6 +749,10 @@ func (w *World) connectOn(plain, tlsLn *memListener, useTLS bool, sni string) (n
 	case <-w.done:
 		return nil, errors.New("world closed")
 	}
+	// Guard: no client waits forever. A proxy that never answers (or a client that cannot tell
+	// where a response ends) errors out after 3 virtual hours instead of hanging the scenario;
+	// legitimate waits in the scenarios are far shorter.
+	c.SetDeadline(time.Now().Add(w.ClientDeadline()))
 	if useTLS {
 		tc := tls.Client(c, &tls.Config{InsecureSkipVerify: true, ServerName: sni, NextProtos: []string{"http/1.1"}})
 		return tc, nil
